@@ -17,6 +17,13 @@ kanirun.META.update({
 })
 
 
+kanirun.DIRS.update({
+    "C05": ["graph", "C05"],
+    "C06": ["graph", "C06"],
+    "C08": ["graph", "C08"],
+})
+
+
 def run(prop, tier, seed):
     extra = EXTRA.get(prop)
     return kanirun.main(prop, tier, seed, extra=extra)
@@ -65,4 +72,16 @@ kanirun.META["C03"] = {
     "bounds": "ErrorKind::or: all 4x4 kind pairs, folds over <= 3 extensions; load_from_source: extension lists of length 0..3, each extension absent/unreadable/undecodable/decodable, content <= 2 bytes, with and without default_value; FileContent: all three variants",
     "outside": "shipped serde/image/sound loaders; large files; whitespace trimming beyond the stated content bound; cache-level compounds beyond depth 2",
     "assumptions": COMMON_ASSUME,
+}
+
+kanirun.META["C05"] = {
+    "bounds": "graph kernel: 3 asset keys + 2 file keys, 1-byte ids, all sequences of 2-3 (quick) / 4 (thorough) insert_asset calls with all acyclic dependency masks (incl. rewiring), all changed-file sets incl. a duplicate notification; scenario level: see harness list",
+    "outside": "enhance_hot_reloading mode beyond the scenario harness; filesystem source/watcher; DAGs with more than 3 assets; real hashbrown (model map)",
+    "assumptions": COMMON_ASSUME,
+}
+kanirun.META["C08"] = {
+    "map_cap": {"quick": 2, "thorough": 3},
+    "bounds": "graph: look-up cycles A<->B, self look-up, A->B->C->A with one file read; recursion bound 8 frames (> nodes+1); protocol: see harness list",
+    "outside": "std locks; OS scheduling fairness; event bursts from a real watcher",
+    "assumptions": COMMON_ASSUME + ["parking_lot::Condvar has no spurious wake-ups (documented) and wakes every waiter on notify_all; weak fairness of the scheduler"],
 }
